@@ -16,6 +16,8 @@ pub const MAX_THREADS: usize = 10;
 pub const ADDR_PAYLOAD: usize = 1;
 /// Pseudo address of harness-level points (yield between retries, call boundaries).
 pub const ADDR_HARNESS: usize = 2;
+/// pseudo address of the point before a dereference of bookkeeping memory (`touch`)
+pub const ADDR_TOUCH: usize = 3;
 /// `Policy::Walk.target` value that designates the payload point instead of an address index
 pub const TARGET_PAYLOAD: u8 = 255;
 
@@ -106,6 +108,10 @@ pub enum Policy {
     /// next thread in cyclic order) except at the listed decision numbers (1-based), where the
     /// `alt`-th other candidate is chosen instead
     Deviate(Vec<(u32, u8)>),
+    /// a random walk (`stay` as in `Walk`) in which thread `victim` is suspended at its `nth`
+    /// (0-based) dereference point (`touch`) until no other thread can make progress: the classic
+    /// shape of a use-after-free under deferred reclamation
+    Stall { victim: u8, nth: u8, stay: u8 },
 }
 
 #[derive(Clone, Debug, serde::Serialize, serde::Deserialize, PartialEq, Eq)]
@@ -193,6 +199,8 @@ pub struct Outcome {
 struct Th {
     state: TState,
     yielded: bool,
+    stalled: bool,
+    touches: u32,
     ro_streak: u32,
     notified: bool,
     steps: u64,
@@ -412,6 +420,17 @@ impl State {
         if cands.is_empty() {
             return None;
         }
+        if cands.iter().any(|i| self.threads[*i].stalled) {
+            // a stalled thread stays suspended while any other thread can make progress
+            let progress = cands.iter().any(|i| !self.threads[*i].stalled && !self.threads[*i].yielded);
+            if progress {
+                cands.retain(|i| !self.threads[*i].stalled);
+            } else {
+                for t in self.threads.iter_mut() {
+                    t.stalled = false;
+                }
+            }
+        }
         let mut pool: Vec<usize> = cands
             .iter()
             .copied()
@@ -463,6 +482,23 @@ impl State {
                     }
                 }
             }
+            Policy::Stall { stay, .. } => match self.next_byte() {
+                Some(b) => {
+                    if can_stay && b <= stay {
+                        me
+                    } else {
+                        let others: Vec<usize> = pool.iter().copied().filter(|i| *i != me).collect();
+                        others[(b as usize) % others.len()]
+                    }
+                }
+                None => {
+                    if can_stay {
+                        me
+                    } else {
+                        *pool.iter().find(|i| **i > me).unwrap_or(&pool[0])
+                    }
+                }
+            },
             Policy::Pct { prio: _, change } => {
                 if can_stay && change.contains(&(self.decisions as u32)) {
                     self.pct_low -= 1;
@@ -796,6 +832,8 @@ impl Sched {
                 st.threads.push(Th {
                     state: TState::Idle,
                     yielded: false,
+                    stalled: false,
+                    touches: 0,
                     ro_streak: 0,
                     notified: false,
                     steps: 0,
@@ -908,6 +946,17 @@ impl Sched {
 
     pub fn now(&self) -> u64 {
         self.lock().step
+    }
+
+    /// true while the running managed thread is inside a call into the crate
+    pub fn in_call(&self) -> bool {
+        match current_tid() {
+            Some(me) => {
+                let st = self.lock();
+                st.active && st.threads[me].in_call
+            }
+            None => false,
+        }
     }
 
     pub fn set_in_call(&self, v: bool) {
@@ -1235,6 +1284,15 @@ impl Runtime for Sched {
     fn touch(&self, addr: usize) {
         let _nc = crate::mem::NoCount::new();
         if let Some((me, st)) = self.enter() {
+            // a thread can be pre-empted between loading a pointer and dereferencing it
+            let mut st = st;
+            st.threads[me].touches += 1;
+            if let Policy::Stall { victim, nth, .. } = &st.cfg.schedule.policy {
+                if *victim as usize == me && st.threads[me].touches == *nth as u32 + 1 {
+                    st.threads[me].stalled = true;
+                }
+            }
+            let st = self.point(st, me, ADDR_TOUCH);
             if let Some(f) = st.check_uaf(addr) {
                 let mut st = st;
                 let act = st.threads[me].activity;
